@@ -8,6 +8,7 @@ CONSTANTS
   DevReadOnceAfterHandshake = FALSE
 INVARIANT PrefixAlways
 INVARIANT CompleteAtClose
+INVARIANT ClosedAfterCloseNotify
 INVARIANT InnerOnlyAfterHandshake
 INVARIANT NoPlainBeforeTls
 INVARIANT PlainInOrder
